@@ -96,10 +96,13 @@ type World struct {
 	Trace []string
 	Reqs  int
 	Known map[string]int // recorded findings recognised in this world
+	// orphans (K1 candidates) of every repository as of the end of the previous Compare
+	prevOrph map[string]map[string]bool
+	prevK5   map[string]map[string]bool
 }
 
 func NewWorld(r *Run, h http.Handler, u *Universe, kind StoreKind, repos ...string) *World {
-	w := &World{R: r, H: h, U: u, Kind: kind, Repos: map[string]*RepoModel{}, Known: map[string]int{}}
+	w := &World{R: r, H: h, U: u, Kind: kind, Repos: map[string]*RepoModel{}, Known: map[string]int{}, prevOrph: map[string]map[string]bool{}, prevK5: map[string]map[string]bool{}}
 	for _, n := range repos {
 		w.Repos[n] = NewRepoModel(n)
 	}
@@ -244,6 +247,13 @@ func (w *World) DeleteBlob(repo, d, name string) (Resp, int) {
 // k5Possible: recorded finding K5 - a manifest deleted by digest is served again after the repository index is
 // reloaded while some stored index still lists it and its bytes are stored.
 func (w *World) k5Possible(m *RepoModel, d string) bool {
+	if w.prevK5[m.Name][d] && w.Kind != Mem {
+		return true // (possible as of the previous look: a reload may have met that state, see k1Possible)
+	}
+	return w.k5Now(m, d)
+}
+
+func (w *World) k5Now(m *RepoModel, d string) bool {
 	if !m.DelDig[d] || m.Stored[d] == nil || w.Kind == Mem {
 		return false
 	}
@@ -266,7 +276,11 @@ func (w *World) k1Possible(m *RepoModel, d string) bool {
 	if w.Kind == Mem || m.Tagged(d) {
 		return false
 	}
-	return w.Orphans(m, nil)[d]
+	// The directory store reloads index.json whenever its time stamps ask for it (at the latest one second after the
+	// previous look, so under load at any request): the reload may have met the state before the last operation.  A
+	// manifest that was an orphan then, and is derivable again only through what that operation stored, is lost all
+	// the same.
+	return w.Orphans(m, nil)[d] || w.prevOrph[m.Name][d]
 }
 
 // Orphans returns the manifests that live only in a child list (adopted, untagged) and are not derivable from the
@@ -633,6 +647,14 @@ func (w *World) Compare(repo string, real Snap) []Diff {
 			out = append(out, Diff{Kind: "blob", Key: w.name(d), Want: fmt.Sprint(wv), Got: fmt.Sprint(gv)})
 		}
 	}
+	w.prevOrph[repo] = w.Orphans(m, nil)
+	k5 := map[string]bool{}
+	for d := range m.DelDig {
+		if w.k5Now(m, d) {
+			k5[d] = true
+		}
+	}
+	w.prevK5[repo] = k5
 	return out
 }
 
